@@ -37,6 +37,7 @@ struct Extractor {
   std::map<const void *, unsigned> Ids;
   std::map<std::string, unsigned> TypeIds;
   std::vector<std::string> TypeTab;
+  std::vector<std::string> CanonTab;   // canonical spelling of TypeTab[i] (empty for interned names)
   std::set<const FunctionDecl *> DoneFns;
   std::deque<const FunctionDecl *> Work;
   std::set<const CXXRecordDecl *> DoneRecs;
@@ -63,11 +64,16 @@ struct Extractor {
   unsigned typeId(QualType T) {
     if (T.isNull()) return 0;
     std::string S = T.getAsString(PP);
-    auto It = TypeIds.find(S);
+    std::string C = T.getCanonicalType().getAsString(PP);
+    // member typedefs (value_type, size_type) print alike in every instantiation: the canonical type is part of
+    // the key
+    std::string K = S + "\x01" + C;
+    auto It = TypeIds.find(K);
     if (It != TypeIds.end()) return It->second;
     TypeTab.push_back(S);
+    CanonTab.push_back(C);
     unsigned N = TypeTab.size();
-    TypeIds[S] = N;
+    TypeIds[K] = N;
     return N;
   }
 
@@ -129,6 +135,7 @@ struct Extractor {
     auto It = TypeIds.find(S);
     if (It != TypeIds.end()) return It->second;
     TypeTab.push_back(S);
+    CanonTab.push_back("");
     unsigned N = TypeTab.size();
     TypeIds[S] = N;
     return N;
@@ -840,6 +847,9 @@ struct Extractor {
       J.attribute("rec", "types");
       J.attributeArray("tab", [&] {
         for (auto &S : TypeTab) J.value(S);
+      });
+      J.attributeArray("ctab", [&] {
+        for (auto &S : CanonTab) J.value(S);
       });
     });
     Out << "\n";
